@@ -1089,6 +1089,13 @@ func (em *emitter) emitForRange(node *ast.ForRange) {
 		kExpr = false
 		exprReg = em.emitExpr(expr, exprType)
 	}
+	// If the second iteration variable is present, the range is over a copy
+	// of the array.
+	if exprType.Kind() == reflect.Array && len(vars) == 2 && !isBlankIdentifier(vars[1]) {
+		tmp := em.fb.newRegister(reflect.Array)
+		em.fb.emitMove(false, exprReg, tmp, reflect.Array)
+		exprReg = tmp
+	}
 
 	// The instruction OpRange knows nothing about indirect registers. So, if
 	// indirect registers are involved, declare them both as  direct and
